@@ -288,6 +288,17 @@ def run_check(prop, tier, seed, replay=None):
     if not build_ok:
         ctx.log("proof build errors:", tail_err(bout, 5))
     ctx.log(f"obligations {discharged}/{obligations} discharged")
+    if not ctx.quick and build_ok:
+        # thorough tier: independent re-check of the compiled modules (replays every declaration through the kernel)
+        try:
+            rc_lc, out_lc = run_leanchecker(ctx, reg["modules"])
+            ctx.leanchecker = {"modules": reg["modules"], "exit": rc_lc, "tail": out_lc.strip().split("\n")[-1][:200] if out_lc.strip() else ""}
+            if rc_lc != 0:
+                broken.append({"kind": "leanchecker", "detail": tail_err(out_lc) or out_lc[-400:]})
+            ctx.log(f"leanchecker exit {rc_lc}")
+        except Exception as e:   # timeouts etc. are machinery errors, not violations
+            ctx.leanchecker = {"error": f"{type(e).__name__}: {e}"}
+            ctx.log("leanchecker did not finish:", e)
     # 4. correspondence
     corr = {"evaluations": 0, "distinct_nontrivial": 0, "rule": "", "samples": [], "disagreements": []}
     if driver_ok or getattr(mod, "NEEDS_DRIVER", True) is False:
